@@ -3,11 +3,12 @@
     of the inputs and nothing is modified, by construction; that the package behaves like
     these functions on repeated calls, fresh processes and rebuilt maps, and leaves its
     inputs unchanged, is what the correspondence family [pure] decides.  The theorems below
-    are the parts of the statement that are about the two sources of non-determinism the
-    model does represent: the hash seed of uniqueItems and the order in which a map is
-    listed when it is marshalled. *)
+    are the parts of the statement that are about the sources of non-determinism the model
+    represents: the hash seed of uniqueItems, the order in which an instance map lists its
+    members, and the order in which a map is listed when it is marshalled.  (The order in
+    which the maps of the *schema* are ranged over is sampled by the correspondence only.) *)
 From Coq Require Import List NArith ZArith QArith Bool Permutation.
-From JS Require Import Str StrFacts Lit Json Res GoValue Hash Schema CodecBase Codec Basic MarshalFacts Env Ann Validate Spec SpecMono Refine Corollaries.
+From JS Require Import Str StrFacts Lit Json JsonFacts Res GoValue Hash Schema CodecBase Codec Basic MarshalFacts Env Ann Validate Spec SpecMono Refine Corollaries SpecPerm OrderFree.
 Import ListNotations.
 
 (** the verdict is the same under every hash function (every seed of every process) *)
@@ -32,6 +33,31 @@ Theorem C14_verdict_function : forall re_match hash n e inst b,
   Validate re_match hash n e inst = if b then Ok tt else Err.
 Proof. exact Validate_spec. Qed.
 Print Assumptions C14_verdict_function.
+
+(** the verdict does not depend on the order in which any map of the instance lists its
+    members (nor on the representation of its numbers): JSON-equal instances, same verdict -
+    the specification gives the same result, the same evaluated items and, as sets, the
+    same evaluated property names *)
+Theorem C14_instance_order : forall re_match hash n e g g' b,
+  gv_wf g = true -> gv_wf g' = true -> jeq (den g) (den g') ->
+  isValidSchemaVersion (e_version e) = true ->
+  spec_valid re_match n e (den g) = Some b ->
+  Validate re_match hash n e g = Validate re_match hash n e g'.
+Proof. exact Validate_json_value. Qed.
+Print Assumptions C14_instance_order.
+
+Theorem C14_spec_order : forall re_match e n C j j' l s,
+  jeq j j' -> json_wf j = true -> json_wf j' = true ->
+  ores_eq (spec_eval re_match n e C j l s) (spec_eval re_match n e C j' l s).
+Proof. exact spec_eval_comp. Qed.
+Print Assumptions C14_spec_order.
+
+Example C14_example_order :
+  jeq (JObj [(lit "a"%lit, JNum 1); (lit "b"%lit, JArr [JObj [(lit "x"%lit, JNull); (lit "y"%lit, JBool true)]])])
+      (JObj [(lit "b"%lit, JArr [JObj [(lit "y"%lit, JBool true); (lit "x"%lit, JNull)]]); (lit "a"%lit, JNum (2#2))]).
+Proof.
+  apply json_eqb_jeq; vm_compute; reflexivity.
+Qed.
 
 (** the marshalled document does not depend on the order in which Go lists a map: the
     properties map, every other schema-valued map, and every map inside a value *)
